@@ -134,6 +134,31 @@ def one_case(seed):
     finally:
         shutil.rmtree(base, ignore_errors=True)
 
+def directed_provided_args():
+    """positional arguments: direct dependencies in declared order, followed by the dependencies they provide upwards -- also when the
+    provided package is named directly as well with a use list that lacks `result`"""
+    p = P.Project(prefix='c13a-')
+    try:
+        mk = lambda nm, extra=None: dict({'buildScript': 'true\n', 'packageScript': 'echo %s > name.txt\n' % nm}, **(extra or {}))
+        dump = 'for a in "${@:2}"; do cat "$a"/name.txt; done > args.txt\n'
+        R = {'lib-a': mk('lib-a', {'provideTools': {'ta': '.'}}), 'lib-c': mk('lib-c'),
+             'lib-b': mk('lib-b', {'depends': ['lib-a', 'lib-c'], 'provideDeps': ['lib-a', 'lib-c']}),
+             'ctrl': {'root': True, 'depends': ['lib-b'], 'buildScript': dump, 'packageScript': 'cp "$1"/args.txt .\n'},
+             'r0': {'root': True, 'depends': [{'name': 'lib-a', 'use': ['tools']}, 'lib-b', {'name': 'lib-c', 'use': ['environment']}], 'buildScript': dump, 'packageScript': 'cp "$1"/args.txt .\n'}}
+        p.write({'recipes': R, 'config': {}})
+        for root in ('ctrl', 'r0'):
+            rc, out = p.bob('dev', root)
+            if rc != 0: return None, ['(project does not build: %s)' % out[-200:].replace('\n', ' ')]
+            got = open(os.path.join(p.dir, 'dev/dist/%s/1/workspace/args.txt' % root)).read().split()
+            if got != ['lib-b', 'lib-a', 'lib-c']:
+                return {'kind': 'arguments-not-in-declared-order', 'package': root, 'observed': got, 'declared': ['lib-b', 'lib-a (provided by lib-b)', 'lib-c (provided by lib-b)'],
+                        'what': 'a provided dependency that is also named directly without `result` is missing from the arguments'}, ['directed provided args']
+        return None, ['directed provided args']
+    except Exception as ex:
+        return None, ['harness problem: %r' % (ex,)]
+    finally:
+        p.cleanup()
+
 def replay(rep):
     import concurrent.futures as cf
     seed = int(os.environ.get('VERIF_SEED', '0') or 0)
@@ -141,7 +166,7 @@ def replay(rep):
     n = 40 if thorough else 8
     tried = 0; distinct = set(); samples = []; problems = 0
     with cf.ThreadPoolExecutor(max_workers=8) as ex:
-        futs = [ex.submit(one_case, seed * 1000 + i) for i in range(n)]
+        futs = [ex.submit(directed_provided_args)] + [ex.submit(one_case, seed * 1000 + i) for i in range(n)]
         for f in cf.as_completed(futs):
             w, log = f.result(); tried += 1
             if log and (str(log[-1]).startswith('harness problem') or str(log[-1]).startswith('(project')): problems += 1; samples.append({'problem': log[-1]}) if len(samples) < 3 else None; continue
